@@ -11,8 +11,8 @@ import (
 func init() {
 	register(&Property{
 		Meta: PropMeta{
-			ID:    "C03",
-			Level: "other",
+			ID:          "C03",
+			Level:       "other",
 			Explanation: "Structural necessary conditions of 'unconsumed arguments are conserved, in order', decided on the SSA of /repo for all paths: (WHO) parseState.retargs is written only by ParseArgs (fresh, empty) and addArgs (append of the remainder to its previous value), parseState.args only by ParseArgs (the caller's slice / the handler's slice), pop (args[1:], returning args[0]) and completion's private state, parseState.positional only by fillParseState, addArgs and completion; (TERMINATOR) the untouched tail parseState.args is appended exactly under PassDoubleDash ∧ token == \"--\" and the loop is left afterwards; (PASSAFTER) under PassAfterNonOption a non-option token that is not a command of the *current lookup* appends the token and then the tail, in that order, and leaves the loop; (REQUEUE) IgnoreUnknown re-queues the very value pop() returned; (FILL) addArgs converts args[0] into the positional at the head of the queue as re-read in each iteration, drops exactly one token per iteration, advances the queue by one unless the head is a remaining-arguments slice, and appends the whole remainder; (NONOPT) every return of parseNonOption has passed addArgs(current token) or activated a command; (SYNTAX) argumentIsOption answers true exactly under (len>1 ∧ a[0]=='-' ∧ a[1]!='-') or (len>2 ∧ a[0]=='-' ∧ a[1]=='-' ∧ a[2]!='-').",
 			NotDecided:  "that 'consumed' coincides with the statement's definition on every vector (depends on token values); string identity beyond 'same SSA value / same slice'.",
 			Trusted:     []string{"go/ssa lowering", "go/types", "append/slice semantics"},
@@ -22,8 +22,8 @@ func init() {
 	})
 	register(&Property{
 		Meta: PropMeta{
-			ID:    "C10",
-			Level: "other",
+			ID:          "C10",
+			Level:       "other",
 			Explanation: "Structural necessary conditions of 'positional arguments bind in declaration order', decided on the SSA of /repo for all paths: (ORDER) the positional scan appends one Arg per exported field inside a counted loop over the struct's fields with value = realval.Field(i), Command.args is only ever extended by append (never reset), and fillParseState / Args() copy it in order; (FILL) the head-of-queue fill of addArgs (shared with C03): head re-read per iteration, one token per iteration, queue advances unless the head is a slice, isRemaining ⇔ Kind() == Slice; (BEFORE-COMMANDS) in parseNonOption a pending positional takes the token under the sole guard len(positional) > 0 and the command lookup is reachable only with an empty queue; (UNDISTURBED) parseState.positional is written only by fillParseState, addArgs and completion's private state, and nothing reachable from addArgs tests option syntax.",
 			NotDecided:  "the converted values (C11); binding for every interleaving as a value relation.",
 			Trusted:     []string{"go/ssa lowering", "go/types", "copy/append semantics"},
@@ -79,23 +79,35 @@ func (c *Ctx) addArgsSkeleton(r *Report, rule string) {
 	l := loops[0]
 	// the token cursor: either the argument slice shrinks by one per iteration (args = args[1:], token args[0])
 	// or a counter advances by one per iteration (token args[i], remainder args[i:])
-	var argsPhi, ctrPhi *ssa.Phi
+	var argsPhi, ctrPhi, rngPhi *ssa.Phi
 	for _, in := range l.Header.Instrs {
-		if p, ok := in.(*ssa.Phi); ok && relType(c, p.Type()) == "[]string" {
-			argsPhi = p
+		p, ok := in.(*ssa.Phi)
+		if !ok {
+			break
 		}
-		if p, ok := in.(*ssa.Phi); ok && relType(c, p.Type()) == "int" {
+		switch {
+		case relType(c, p.Type()) == "[]string":
+			argsPhi = p
+		case relType(c, p.Type()) == "int" && c.term(p) == "phi{(phi↺ + 1) | -1}":
+			rngPhi = p // the hidden index of `for … := range args`
+		case relType(c, p.Type()) == "int":
 			ctrPhi = p
 		}
 	}
+	const ctrT, rngT = "phi{(phi↺ + 1) | 0}", "phi{(phi↺ + 1) | -1}"
 	var tokT, restT string
 	switch {
 	case argsPhi != nil:
 		r.Check(c.term(argsPhi) == "phi{P1 | slice(phi↺, 1, _)}", rule, an, "one token dropped per iteration", c.ipos(argsPhi), "args starts as the parameter and every back edge carries args[1:]", "args evolves as "+c.term(argsPhi))
 		tokT, restT = "idx(phi{P1 | slice(phi↺, 1, _)}, 0)", "phi{P1 | slice(phi↺, 1, _)}"
+	case ctrPhi != nil && rngPhi != nil:
+		// range over args with a separate count of consumed tokens: both advance by one on every back edge
+		d, ok := lockstep(ctrPhi, rngPhi)
+		r.Check(ok && d == 1 && c.term(ctrPhi) == ctrT, rule, an, "one token dropped per iteration", c.ipos(ctrPhi), "the consumed count starts at 0 and advances with the range index on every back edge", "the consumed count evolves as "+c.term(ctrPhi)+" against the range index "+c.term(rngPhi))
+		tokT, restT = "idx(P1, ("+rngT+" + 1))", "slice(P1, "+ctrT+", _)"
 	case ctrPhi != nil:
-		r.Check(c.term(ctrPhi) == "phi{(phi↺ + 1) | 0}", rule, an, "one token dropped per iteration", c.ipos(ctrPhi), "the token index starts at 0 and every back edge carries index+1", "the token index evolves as "+c.term(ctrPhi))
-		tokT, restT = "idx(P1, phi{(phi↺ + 1) | 0})", "slice(P1, phi{(phi↺ + 1) | 0}, _)"
+		r.Check(c.term(ctrPhi) == ctrT, rule, an, "one token dropped per iteration", c.ipos(ctrPhi), "the token index starts at 0 and every back edge carries index+1", "the token index evolves as "+c.term(ctrPhi))
+		tokT, restT = "idx(P1, "+ctrT+")", "slice(P1, "+ctrT+", _)"
 	default:
 		r.Fail(rule, an, "loop-carried args", "", "not found")
 		return
@@ -115,7 +127,7 @@ func (c *Ctx) addArgsSkeleton(r *Report, rule string) {
 				if hu, ok := fa.X.(*ssa.UnOp); ok {
 					if ia, ok := hu.X.(*ssa.IndexAddr); ok {
 						if pl, ok := ia.X.(*ssa.UnOp); ok {
-							inLoop = l.Blocks[pl.Block()] && l.Blocks[hu.Block()]
+							inLoop = c.inLoop(l, pl.Block()) && c.inLoop(l, hu.Block())
 						}
 					}
 				}
@@ -127,26 +139,26 @@ func (c *Ctx) addArgsSkeleton(r *Report, rule string) {
 	pf := c.Field("parseState", "positional")
 	nAdv := 0
 	for _, s := range c.storesTo(pf) {
-		if s.Fn != aa {
+		if !c.actsFor(s.Fn, aa) {
 			continue
 		}
 		nAdv++
 		okV := c.term(s.Store.Val) == "slice(parseState.positional(P0), 1, _)"
 		_, req := c.Requires(aa, isInstr(s.Store), litHas(false, "call:(*Arg).isRemaining(idx(parseState.positional(P0), 0))"), nil)
-		r.Check(okV && req && l.Blocks[s.Store.Block()], rule, an, "queue advances by one unless the head is a remaining-arguments slice", c.ipos(s.Store), "positional = positional[1:] REQ(¬isRemaining)", fmt.Sprintf("value=%s ¬isRemaining necessary=%v", c.term(s.Store.Val), req))
+		r.Check(okV && req && c.inLoop(l, s.Store.Block()), rule, an, "queue advances by one unless the head is a remaining-arguments slice", c.ipos(s.Store), "positional = positional[1:] REQ(¬isRemaining)", fmt.Sprintf("value=%s ¬isRemaining necessary=%v", c.term(s.Store.Val), req))
 	}
 	r.Check(nAdv == 1, rule, an, "one queue advance", c.pos(aa.Pos()), "one", fmt.Sprintf("%d", nAdv))
 	// remainder appended
 	rf := c.Field("parseState", "retargs")
 	nApp := 0
 	for _, s := range c.storesTo(rf) {
-		if s.Fn != aa {
+		if !c.actsFor(s.Fn, aa) {
 			continue
 		}
 		nApp++
 		v := c.term(s.Store.Val)
 		okV := v == "append(parseState.retargs(P0), "+restT+")" || v == "append(parseState.retargs(P0), P1)" && argsPhi != nil
-		r.Check(okV && !l.Blocks[s.Store.Block()], rule, an, "whole remainder appended after the fill", c.ipos(s.Store), "retargs = append(retargs, <remaining args>...) outside the loop", "retargs stored as "+trunc(v, 100))
+		r.Check(okV && !c.inLoop(l, s.Store.Block()), rule, an, "whole remainder appended after the fill", c.ipos(s.Store), "retargs = append(retargs, <remaining args>...) outside the loop", "retargs stored as "+trunc(v, 100))
 	}
 	r.Check(nApp >= 1, rule, an, "remainder appended", c.pos(aa.Pos()), "at least one append of the remainder", "the remainder is never appended")
 	// the loop's only exits: header tests (queue empty / no tokens) and the conversion error return
